@@ -12,7 +12,8 @@ class C03(Prop):
     ID = "C03"
     THEOREMS = ["C03_section_codec", "C03_block_decode", "C03_query_image", "C03_query", "C03_values", "C03_sorted_clipped",
                 "C03_values_array", "C03_values_pointwise", "C03_cover_unique", "C03_step", "C03_block_read_reset",
-                "C03_cache_bounded", "C03_reopen", "C03_history", "C03_history_written"]
+                "C03_cache_bounded", "C03_reopen", "C03_history", "C03_history_written",
+                "C03_query_compressed", "C03_values_compressed", "C03_history_written_compressed"]
     RULE = ("bbi cases written by the real BigWigWrite with small items_per_slot {1,2,3,7} and block_size {2,3,4,256} so that a chromosome "
             "spans many blocks and index levels; per file the query HISTORY is built from all 'interesting' (s,e): 0, chromosome length, "
             "every item boundary and every block boundary -1/0/+1 -- all pairs s<=e (incl. empty ranges) for small files, block-boundary "
